@@ -106,6 +106,10 @@ pub enum StoreFault {
     Error(u8),
     /// the n-th backend call of this request never returns: the request future is dropped there
     Crash(u8),
+    /// SQLite backend: the n-th SQL statement of this request (transaction control excluded) fails
+    /// inside SQLite with FAULT_CODES[c] (disk full / I/O error / busy) — the store's own error
+    /// path produces the `Other` error. On the memory backend: same as `Error(n)`.
+    Sql(u8, u8),
 }
 
 #[derive(Serialize, Deserialize, Clone, Debug, PartialEq)]
@@ -824,8 +828,14 @@ fn run_request(w: &mut World<'_>, ri: usize, req: &Req, shape: &str) {
         match req.fault {
             Some(StoreFault::Error(n)) => p.fail_at = Some(n as u32 + 1),
             Some(StoreFault::Crash(n)) => p.crash_at = Some(n as u32 + 1),
+            Some(StoreFault::Sql(n, _)) if !w.cfg.sqlite => p.fail_at = Some(n as u32 + 1),
+            Some(StoreFault::Sql(..)) => {}
             None => {}
         }
+    }
+    let sql_failed_before = crate::gate::FAILED.load(std::sync::atomic::Ordering::SeqCst);
+    if let (true, Some(StoreFault::Sql(n, c))) = (w.cfg.sqlite, &req.fault) {
+        crate::gate::fail_after(Some(*n as u32), crate::gate::FAULT_CODES[*c as usize % crate::gate::FAULT_CODES.len()]);
     }
     let mut rm = ReqModel {
         presented: presented.as_ref().map(|e| e.id.clone()),
@@ -902,6 +912,11 @@ fn run_request(w: &mut World<'_>, ri: usize, req: &Req, shape: &str) {
             }
         }
     }
+    crate::gate::fail_after(None, 0);
+    let fired_sql = crate::gate::FAILED.load(std::sync::atomic::Ordering::SeqCst) != sql_failed_before;
+    if fired_sql {
+        w.out.count("fault_sqlite_statement_failed", 1);
+    }
     for l in log {
         w.out.log.ev(format_args!("req{ri} {l}"));
     }
@@ -931,7 +946,7 @@ fn run_request(w: &mut World<'_>, ri: usize, req: &Req, shape: &str) {
         // premise is not met; counted as an observation and handled like a crashed request.
         let msg = crate::take_panics().join(" | ");
         w.out.log.ev(format_args!("req{ri} PANICKED: {}", msg.chars().take(200).collect::<String>()));
-        w.out.count(if fired_error || fired_crash { "panic_after_injected_fault" } else { "observation_panic_without_fault" }, 1);
+        w.out.count(if fired_error || fired_crash || fired_sql { "panic_after_injected_fault" } else { "observation_panic_without_fault" }, 1);
     }
     // ---- after the request
     let session_cookie: Option<SetCookie> = {
@@ -947,6 +962,7 @@ fn run_request(w: &mut World<'_>, ri: usize, req: &Req, shape: &str) {
             Err(_) => None,
         }
     };
+    let fired_error = fired_error || fired_sql;
     let faulted = fired_error || fired_crash || fired_stale || crashed || req.abandon;
     // abstract state reached at finalisation (reach measure)
     {
@@ -1914,7 +1930,7 @@ impl Sim for SesSim {
                     "the model is written from the documentation; existence of an EMPTY record, TTL extension, outcomes inside a deadline window and the durable effects of an explicit sync() or of a failed request are adopted from observation (three-valued), so creation-policy and TTL-policy bugs are out of scope".into(),
                     "a finalize_session that fails without an injected fault emits no cookie, so C11 is vacuous for it: counted as observation_finalize_failed_without_fault, not reported".into(),
                 ],
-                fault_counters: vec!["fault_store_error".into(), "fault_request_crashed".into(), "fault_request_abandoned".into(), "fault_clock_jump_back".into(), "fault_stale_none_answer".into()],
+                fault_counters: vec!["fault_store_error".into(), "fault_request_crashed".into(), "fault_request_abandoned".into(), "fault_clock_jump_back".into(), "fault_stale_none_answer".into(), "fault_sqlite_statement_failed".into()],
                 expected_probes: vec!["join_two_loads_in_flight".into(), "join_loads_disagreed".into(), "server_remove_of_present_key".into(), "stale_cookie_replayed".into(), "state_after_cycle_checked".into(), "state_after_invalidate_checked".into(), "rejected_missing_state".into(), "allowed_missing_state".into(), "loaded_after_expiry".into(), "durable_state_cross_checked".into()],
             }
         }
@@ -2067,6 +2083,13 @@ impl Sim for SesSim {
             if rng.chance(1, 2) {
                 // make sure a cookie is presented, so that there is something to load
                 reqs[ri].present = Present::Latest;
+            }
+        }
+        if cfg.sqlite && arm == "fault" {
+            for r in reqs.iter_mut() {
+                if rng.chance(1, 3) {
+                    r.fault = Some(StoreFault::Sql(rng.below(4) as u8, rng.below(3) as u8));
+                }
             }
         }
         Script { arm: arm.to_string(), cfg, reqs, crypto_switch }
